@@ -364,4 +364,11 @@ VARIANTS = [
     ('regex-first-digit', 'cylc/flow/pathutil.py',
      "re_runX = re.compile(r'run(\\d+)$')",
      "re_runX = re.compile(r'run(\\d)')", 'C48.next-number'),
+    ('clean-unlinks-runN-on-prefix', 'cylc/flow/clean.py',
+     '        os.readlink(str(runN)) == run_dir.name',
+     '        run_dir.name in os.readlink(str(runN))', 'C48.runN'),
+    ('clean-unlinks-runN-always', 'cylc/flow/clean.py',
+     '''        not run_dir.exists() and
+        os.readlink(str(runN)) == run_dir.name''',
+     '''        os.readlink(str(runN)) == run_dir.name''', 'C48.runN'),
 ]
